@@ -348,6 +348,19 @@ func (g *gen) opC16() Op {
 	if g.chance(0.55) {
 		op.N = 1
 		op.F = Str(g.format(a))
+		if g.chance(0.2) {
+			// %w with an error operand: outside HelperForErrorf every route
+			// reports it as a bad verb, in the same words
+			ev := Val{K: "goerr", ID: g.id(), S: Str(g.payload())}
+			switch g.r.Intn(4) {
+			case 0:
+				ev = g.scripted("error", 1)
+			case 1:
+				ev = Val{K: "safe", V: []Val{ev}}
+			}
+			op.A = append(op.A, ev)
+			op.F += Str(g.lit() + g.pick([]string{"%w", "%w", "%+w", "%-12w|", fmt.Sprintf("%%[%d]w", len(op.A))}))
+		}
 	}
 	// valid UTF-8 only: a dangling partial sequence at a seam between
 	// the destination's prior content and the inserted text legitimately
